@@ -154,7 +154,11 @@ func observe(in *input) obsT {
 func observeLocal(in *input) obsT {
 	var r cmd.VerifC09Result
 	for attempt := 0; ; attempt++ {
-		r = cmd.VerifC09Parse(in.Files, in.Dirs, in.Main, in.Defines, in.IP)
+		if in.UseStdin {
+			withStdin(in.Stdin, func() { r = cmd.VerifC09Parse(in.Files, in.Dirs, in.Main, in.Defines, in.IP) })
+		} else {
+			r = cmd.VerifC09Parse(in.Files, in.Dirs, in.Main, in.Defines, in.IP)
+		}
 		// The parser never closes the files it opens (subreader.f is never
 		// set); their descriptors are only released by finalizers.  When the
 		// experiment could not be set up, or failed, for lack of descriptors,
@@ -252,6 +256,9 @@ func coqFS(in *input) (files string, dirs string) {
 	var fs []string
 	for _, n := range sortedNames(in.Files) {
 		fs = append(fs, "("+bstr(mpath(n))+", "+bstr(in.Files[n])+")")
+	}
+	if in.UseStdin {
+		fs = append(fs, "("+bstr(stdinName)+", "+bstr(in.Stdin)+")") // for the position oracle only
 	}
 	dset := map[string]bool{"/": true, "/r": true, modelRoot: true}
 	for d := range dirsOf(in) {
